@@ -26,6 +26,9 @@ CHECKS = {
  "C19": dict(level="exploration", ref="7/C19",
    text="Systematic sweep of probe lines of length limit-2..limit+3/+50/2*limit for limits 64/200/2000 at five conversation positions (including right after a BDAT chunk), endless 70000-octet lines at four positions, all strings of length <=4 over {NUL,CR,LF,SP,A,:,<} as command lines (400 quick / 2800 thorough x 3 positions), plus seeded binary input and valid/malformed mixes around the fourth error, all under drawn segmentation (limit crossed inside one segment or across segments). Oracles: no recovered panic in ErrorLog, no process crash, no deadlock or leaked goroutine; a line > limit+1 gets exactly one 500, the connection is closed and nothing of it reaches the backend; a line <= limit is handled normally; the connection closes exactly at the fourth malformed command (reference counter); for an endless line the transport counts how many octets the server pulled: at most limit + 8 KiB.",
    note="Length limit+1 is generated but not judged. Only unknown verbs and lines not of the shape VERB [SP args] count as malformed; argument-level errors are not used around the threshold."),
+ "C13": dict(level="exploration", ref="7/C13",
+   text="Seeded search plus the systematic product backend flavour {per-recipient, plain} x transfer {DATA, BDAT} x mode {normal, panic, early failure, out of contract}: 1-4 accepted recipients over two addresses with rejected RCPTs interleaved, drawn subsets/orders/timings of SetStatus calls with parks, return nil/SMTPError/plain error, panic at three points, early failure after k octets (including during the LAST chunk), 1-4 BDAT chunks. Oracle: exactly one final reply per accepted RCPT in RCPT order, each naming its recipient and carrying the status the occurrence rule assigns (k-th status of an address -> its k-th occurrence, else the return value), then the marker and QUIT answered; after a panic no positive reply for a recipient without explicit status and the connection is closed; a bubble deadlock or a goroutine still blocked after one fake hour is a violation (this is the liveness clause).",
+   note="Out-of-contract backends (too many statuses, unknown recipient) are judged only for no deadlock / no crash. Statuses a backend set explicitly before panicking are honoured."),
  "C01": dict(level="exploration", ref="7/C01",
    text="Seeded search plus a systematic sweep of all 5461 bodies over the byte classes {'.',CR,LF,other} up to length 6, each run under a drawn transport segmentation, server short-read plan and backend read-size plan; the octets and terminal error the real dataReader hands the backend are compared with an RFC 5321 reference unstuffer. Sampling, not proof: evidence of byte-exactness over the explored streams x schedules.",
    note="Trusts: the reference unstuffer (cross-checked against a reference stuffer), Go's testing/synctest fake clock, go1.26.8 building go-smtp the same way go1.23.5 does."),
